@@ -464,13 +464,15 @@ package json
 //@   invariant[C09] counted: scan.bytes == atentry(scan.bytes) + rangeindex + 1
 
 // The two pool wrappers are assumed, not verified: sync.Pool hands out a *scanner that no other call holds
-// until it is put back (the type assertion and the exclusive ownership are facts about sync.Pool and about
+// until it is put back (exclusive ownership: for frame reasoning it is as good as freshly allocated, and the
+// contract says fresh) (the type assertion and the exclusive ownership are facts about sync.Pool and about
 // every Put in the package), and a scanner that has been put back is dead until newScanner resets it again
 // (freeScanner may drop its stack, which breaks ScanInv for that dead scanner only).
 //@ func newScanner
 //@   trusted sync.Pool: exclusive *scanner; bytes zeroed and reset() called before it is returned
 //@   modifies nothing
-//@   ensures fresh-state: result != nil && allocated(result) && result.step == stateBeginValue && len(result.parseState) == 0 && result.err == nil && !result.endTop && result.bytes == 0
+//@   ensures private-stack: result.parseState.arr == 0 || fresh(result.parseState)
+//@   ensures fresh-state: result != nil && fresh(result) && result.step == stateBeginValue && len(result.parseState) == 0 && result.err == nil && !result.endTop && result.bytes == 0
 
 //@ func freeScanner
 //@   trusted sync.Pool: the scanner is dead after Put
@@ -485,3 +487,26 @@ package json
 //@ func (*SyntaxError).Error
 //@   requires recv: e != nil
 //@   modifies nothing
+
+// ---- Compact: the same automaton run, copying the significant bytes (C16: acceptance; C15: escapes) ----
+//@ ginv hex-digits: hex == "0123456789abcdef"
+//@ func compact
+//@   requires args: dst != nil
+//@   modifies ghost(BufContent)
+//@   ensures[meta C06] appended: result == nil && !escape ==> BufContent == upd(old(BufContent), dst, old(BufContent)[dst] ++ compactOf(bytes(src)))
+//@   ensures[meta C06] truncated: result != nil ==> BufContent == old(BufContent)
+//@   callsite[C16] step#1 every-byte-in-order-to-the-current-state: arg_c == src[rangeindex + 1]
+//@   callsite[C15] WriteByte#3 line-separator-escape-ends-with-8-or-9: (src[rangeindex + 3] == 168 ==> arg_c == '8') && (src[rangeindex + 3] == 169 ==> arg_c == '9')
+//@   ensures[C16] nothing-appended-when-rejected: result != nil ==> len(BufContent[dst]) == len(old(BufContent)[dst])
+//@   ensures[meta C16] accepts-iff-wf: (result == nil) <==> wf(src)
+//@   loop 1
+//@   invariant shape: sShape(scan) && 0 <= start && start <= rangeindex + 4 && len(BufContent[dst]) >= len(old(BufContent)[dst])
+//@   invariant private-stack: scan.parseState.arr == 0 || fresh(scan.parseState)
+
+//@ func Compact
+//@   requires args: dst != nil
+//@   modifies ghost(BufContent)
+//@   ensures[C16] ok-iff: (result == nil) <==> wf(src)
+//@   ensures[C06,C16] nothing-appended-when-rejected: result != nil ==> len(BufContent[dst]) == len(old(BufContent)[dst])
+//@   ensures[meta C06] appended: result == nil ==> BufContent == upd(old(BufContent), dst, old(BufContent)[dst] ++ compactOf(bytes(src)))
+//@   ensures[meta C06] truncated: result != nil ==> BufContent == old(BufContent)
